@@ -17,7 +17,9 @@ CLAIM = {
              "line shown for any annotated byte is that byte's line in the file, between the entry's first line and the line of its end; "
              "C14_syntax — for checkpoint <= failure position <= end of file, line_start is the checkpoint's line (where the iterator "
              "resumed), the snippet is the rest of the file from there, the error offset denotes exactly the failure position, the span "
-             "ends at the next char boundary (empty at end of input), and the shown line is the failure position's line; C14_file — the "
+             "ends at the next char boundary (empty at end of input), and the shown line is the failure position's line; "
+             "C14_syntax_char — for UTF-8 text the annotated span is exactly the bytes of the character parsing stopped in front of, of any "
+             "width, and both line numbers count the '\\n' characters before; C14_file — the "
              "error context of a rejected entry carries the path and context delivered with that very entry (index = first failing "
              "entry of `process`). The parser-side facts (tracked spans lie inside the entry span, spans are valid slices, the "
              "positions handed to ParseError::new) are hypotheses of the theorems and are checked on the real parser for every "
@@ -35,7 +37,7 @@ CLAIM = {
 }
 
 THEOREMS = ["Okane.Diag.C14_line", "Okane.Diag.C14_line_chars", "Okane.Diag.computeLineNumber_out_of_range",
-            "Okane.Diag.C14_bookkeep", "Okane.Diag.C14_syntax", "Okane.Diag.C14_file"]
+            "Okane.Diag.C14_bookkeep", "Okane.Diag.C14_syntax", "Okane.Diag.C14_syntax_char", "Okane.Diag.C14_file"]
 
 ANSI = re.compile(r"\x1b\[[0-9;]*m")
 
@@ -352,6 +354,8 @@ def run(chk):
     ]
     if not standard_prologue(chk, THEOREMS):
         return
+    global HX, OKANE
+    HX, OKANE = G.snapshot_binaries(chk)
     rng = chk.rng
     quick = chk.tier == "quick"
     n = 1200 if quick else 50000
